@@ -179,6 +179,9 @@ func cmdCheck(args []string) int {
 				if *only != "" && en != *only {
 					continue
 				}
+				if h.ThoroughOnly[en] && *tier != "thorough" {
+					continue
+				}
 				fn := pkg.Func(en)
 				if fn == nil {
 					broken = append(broken, fmt.Sprintf("%s: entry %s not found", filepath.Base(h.Path), en))
